@@ -65,6 +65,8 @@ func runC01(c *Ctx) {
 	r.Rule("R10-trusted-ip-set", "the trusted-IP set inserts into the same-mask map it looks up (shared with C15.R5); the htpasswd validator answers true only by comparing against the entry it read (shared with C20.R2)", 8)
 	r.Rule("R11-bearer-verifier-options", "issuer verification for bearer-token verifiers is switched off only by the operator's explicit option (shared with C04.R2)", 1)
 	r.Rule("R12-remote-address", "without a header parser the client address is the host part of RemoteAddr that net.ParseIP accepted; anything else is an error, never a substitute address", 2)
+	r.Rule("R13-bearer-verifier", "a bearer token verifies only with go-oidc ok and the audience membership check on the first configured audience claim present (shared with C04.R1)", 5)
+	r.Rule("R14-basic-credential-split", "a Basic credential is split at the first colon only", 1)
 	r.Rule("R9-bypass-input", "the skip-auth decision consumes only the guarded, query-free request path (shared with C15.R1)", 1)
 	r.Rule("R8-route-table", "every route whose handler consumes the session is registered through sessionChain; preAuthChain is installed on the root router", 9)
 
@@ -209,6 +211,8 @@ func runC01(c *Ctx) {
 	checkHtpasswdValidate(c, "R10-trusted-ip-set")
 	runIssuerCheckOn(c, "R11-bearer-verifier-options")
 	runRemoteIPRule(c, "R12-remote-address")
+	runVerifierRule(c, "R13-bearer-verifier")
+	runBasicSplitRule(c, "R14-basic-credential-split")
 
 	// ---- R4: IsAllowedRequest -----------------------------------------------------------------------
 	runC01R4(c, "R4-bypass-entry", isAllowed, gas)
